@@ -24,6 +24,8 @@ import uberjob  # noqa: E402
 
 ESHAPE = os.environ.get("XH_ESHAPE", "chain3")
 EREG = os.environ.get("XH_EREG", "0") == "1"
+HAND = os.environ.get("XH_EHAND", "0") == "1"  # a transform_physical hook inserts a hand-built graph.Call (stack_frame=None) that fails
+BADREPR = os.environ.get("XH_EBADREPR", "0") == "1"  # the failing callables have a __repr__ that raises
 EDGES = {"chain3": [(0, 1), (1, 2)], "fork3": [(0, 1), (0, 2)], "join3": [(0, 2), (1, 2)], "indep3": []}[ESHAPE]
 
 
@@ -62,6 +64,17 @@ def c06_error(f0: bool, f1: bool, f2: bool, base: bool, out_sel: int, sf: int) -
             return (j,) + a
 
         f.__name__ = f.__qualname__ = f"f{j}"
+        if BADREPR:
+            class Loader:  # a callable object whose repr raises (e.g. it formats an attribute that is not set yet)
+                __name__ = __qualname__ = f"f{j}"
+
+                def __call__(self, *a):
+                    return f(*a)
+
+                def __repr__(self):
+                    raise RuntimeError("repr of an unopened loader")
+
+            return Loader()
         return f
 
     plan = uberjob.Plan()
@@ -108,13 +121,46 @@ def c06_error(f0: bool, f1: bool, f2: bool, base: bool, out_sel: int, sf: int) -
     needed = sorted(j for j in range(3) if j in outs or any((j, o) in reach for o in outs))
     if EREG and 1 not in needed:
         needed = sorted(set(needed) | {1} | {i for (i, j) in reach if j == 1})  # a stale stored value is rebuilt whatever the output
+    kw = {}
+    hand = {}
+    if HAND:
+        from uberjob.graph import Call, PositionalArg
+
+        def tp(pplan, onode):
+            # a validation call built by hand (documented constructor, stack_frame=None), fed by the output node
+            if onode is None:
+                return pplan, onode
+            def check(v):
+                started.append("hand")
+                if f2:
+                    e = UserBase("hand") if base else UserError("hand")
+                    raised["hand"] = e
+                    raise e
+                return v
+            c = Call(check)
+            pplan.graph.add_node(c)
+            pplan.graph.add_edge(onode, c, PositionalArg(0))
+            hand["node"] = c
+            return pplan, c
+
+        kw["transform_physical"] = tp
     try:
-        res = uberjob.run(plan, registry=reg, output=out, progress=None, max_workers=1)
+        res = uberjob.run(plan, registry=reg, output=out, progress=None, max_workers=1, **kw)
         err = None
     except uberjob.CallError as e:
         err = e
     except (UserError, UserBase):
         return False  # a raw user exception must never escape run()
+    if HAND:
+        # the hand-built call: when it is the one that failed, CallError.call is that very node and the cause the very object
+        hs = [x for x in started if x == "hand"]
+        started[:] = [x for x in started if x != "hand"]
+        if "hand" in raised:
+            if err is None or err.call is not hand.get("node") or err.__cause__ is not raised["hand"]:
+                return False
+            return ok()
+        if len(hs) > 1:
+            return False
     # what ran: only needed calls, each at most once, never downstream of a failed call
     if len(set(started)) != len(started) or any(j not in needed for j in started):
         return False
